@@ -537,6 +537,12 @@ def gen_config(rng, prop, tier):
         break
     else:
         km = {'kind': 'hash', 'arg': 'md5', 'flat': True, 'typed': False, 'sentinel': fn in VARIADIC}
+    if prop == 'C06' and algo == 'mru' and not huge and not attach_load and not wide and rng.chance(0.25):
+        # falsy cache keys: a callable whose arguments reach the raw flat keymap unnamed, called with a single
+        # 0 / '' - the key IS that value
+        km0 = {'kind': 'raw', 'arg': None, 'flat': True, 'typed': False, 'sentinel': True}
+        if keymap_ok(km0, label, direct) and label not in ('file-src', 'dir-src'):
+            km, fn = km0, rng.choice(['w2', 'z0'])
     backend = B.with_link(rng, label, B.config(label, B.odd_name(rng, label, 'm0'))) if label else None
     if label and (label.startswith('dir') or label == 'sql-file') and prop in ('C01', 'C02', 'C07') and rng.chance(0.12):
         # the archive is named relative to the working directory it is opened in, and the process changes
